@@ -66,11 +66,14 @@ class Context:
         self.float_exact = 0    # number of floats read as exact binary values (diagnostic)
         self.strict_floats = False
         self.divisors = {}      # key -> Sym : every non-constant divisor met (must be entailed non-zero)
+        self.concretise_enabled = False   # finite-domain variables: hash()/int() fork over the domain
+        self.cond_assumptions = []        # assumptions given as condition trees (executor.cond_*)
 
     # ---- variables -----------------------------------------------------
-    def var(self, name, positive=False, lo=None, hi=None, kind="input", nonneg=False):
+    def var(self, name, positive=False, lo=None, hi=None, kind="input", nonneg=False, domain=None):
         if name not in self.vars:
-            self.vars[name] = dict(kind=kind, positive=positive, lo=lo, hi=hi, nonneg=nonneg)
+            self.vars[name] = dict(kind=kind, positive=positive, lo=lo, hi=hi, nonneg=nonneg,
+                                   domain=list(domain) if domain is not None else None)
         return Sym({((name, 1),): Fraction(1)})
 
     def assume(self, op, sym):
@@ -240,6 +243,10 @@ class Sym:
         return self._key
 
     def __hash__(self):
+        if self.is_const():
+            return hash(self.const_value())
+        if _ctx().concretise_enabled:
+            return hash(_concretise(self))
         if self._hash is None:
             self._hash = hash(self.key())
         return self._hash
@@ -574,11 +581,20 @@ class Sym:
     def __int__(self):
         v = _try_numeric(self)
         if v is None:
+            if _ctx().concretise_enabled:
+                return int(_concretise(self))
             _ctx().realisations.append(("int", self.short()))
             return 0
         return int(v)
 
-    __index__ = None
+    def __index__(self):
+        if self.is_const() and self.const_value().denominator == 1:
+            return int(self.const_value())
+        if _ctx().concretise_enabled:
+            v = _concretise(self)
+            if Fraction(v).denominator == 1:
+                return int(v)
+        raise TypeError("symbolic value used as an index")
 
     def __format__(self, spec):
         v = _try_numeric(self)
@@ -631,6 +647,26 @@ class Sym:
 # ----------------------------------------------------------------------
 # helpers
 # ----------------------------------------------------------------------
+def _concretise(s):
+    """Finite-domain concretisation by forking: returns the value of s on the current path."""
+    import itertools
+    c = _ctx()
+    names = sorted(s.variables())
+    doms = []
+    for n in names:
+        dom = c.vars.get(n, {}).get("domain")
+        if dom is None:
+            raise SymError("cannot concretise %s: variable %s has no finite domain" % (s.short(), n))
+        doms.append(dom)
+    cands = set()
+    for combo in itertools.product(*doms):
+        cands.add(Fraction(s.evalf(dict(zip(names, combo)))).limit_denominator(10 ** 6))
+    for val in sorted(cands):
+        if s._cmp("==", Sym.const(val)):
+            return int(val) if val.denominator == 1 else val
+    raise SymError("concretisation found no feasible value for %s" % s.short())
+
+
 def _isqrt(n):
     r = math.isqrt(n)
     return r if r * r == n else None
